@@ -1265,3 +1265,431 @@ Proof.
   inversion Hr; subst s1.
   eapply spmc_delivery; eauto. unfold run. rewrite E. reflexivity.
 Qed.
+
+(* ================================================================== C04: disconnect protocol *)
+
+(* ---- after the last receiver is gone every send form fails with Closed and hands the values back *)
+Lemma no_open_rx_no_cursor c outs :
+  InvC c outs -> (forall r x, c_get c r = Some x -> r_live x = false \/ r_closed x = true) -> c_cursors c = [].
+Proof.
+  intros I Hall. destruct (c_cursors c) as [|m t] eqn:E; [reflexivity|exfalso].
+  assert (Hin : In m (c_cursors c)) by (rewrite E; left; reflexivity).
+  apply in_cursors in Hin; [|exact (i_nd _ _ I)]. destruct Hin as (r & x & Hg & Hr & _).
+  destruct (i_rx _ _ I r x Hg) as (_ & _ & _ & D & _). destruct (D Hr) as [Hl Hc].
+  destruct (Hall r x Hg); congruence.
+Qed.
+
+Theorem spmc_all_receivers_gone fx c a ops s outs :
+  0 < c -> run fx c a ops = (s, outs) -> s_alive s = true ->
+  (forall r x, get (rxs s) r = Some x -> r_live x = false \/ r_closed x = true) ->
+  (forall v, snd (step s (TrySend v)) = OClosedV v) /\
+  (forall v, s_async s = false -> snd (step s (Send v)) = OClosed) /\
+  (forall vs, vs <> [] -> snd (step s (TrySendB vs)) = OBatch BClosed 0 vs) /\
+  (forall vs, vs <> [] -> snd (step s (TrySendM vs)) = OMut false 0 vs) /\
+  (forall vs, vs <> [] -> s_async s = false -> snd (step s (SendB vs)) = OBErr 0 vs) /\
+  (forall vs, vs <> [] -> s_async s = false -> snd (step s (SendM vs)) = OMut false 0 vs) /\
+  snd (step s SObs) = OObs 0 true false true (cap s).
+Proof.
+  intros Hc Hr Ha Hall. pose proof (inv_run _ _ _ _ _ _ Hc Hr) as I.
+  assert (Hcur : cursors s = []) by (apply (no_open_rx_no_cursor (proj s) outs I); exact Hall).
+  assert (Hsp : space s = None) by (unfold space; rewrite Hcur; reflexivity).
+  assert (Hcap : N.eqb 0 (cap s) = false).
+  { destruct (N.eqb_spec 0 (cap s)) as [E|]; [|reflexivity]. pose proof (i_cap _ _ I) as H0. cbn [proj c_cap] in H0. lia. }
+  repeat split.
+  - intros v. cbn [step]. rewrite Ha. cbn [negb]. destruct (s_closed s); [reflexivity|].
+    unfold try_send_core. rewrite Hcur. reflexivity.
+  - intros v Hs. cbn [step]. rewrite Ha, Hs. cbn [negb orb]. destruct (s_closed s); [reflexivity|].
+    unfold try_send_core. rewrite Hcur. reflexivity.
+  - intros vs Hne. cbn [step]. rewrite Ha. cbn [negb]. destruct vs as [|v0 t]; [congruence|].
+    destruct (s_closed s); [reflexivity|]. unfold send_some. rewrite Hsp. reflexivity.
+  - intros vs Hne. cbn [step]. rewrite Ha. cbn [negb]. destruct vs as [|v0 t]; [congruence|].
+    destruct (s_closed s); [reflexivity|]. unfold send_some. rewrite Hsp. reflexivity.
+  - intros vs Hne Hs. cbn [step]. rewrite Ha, Hs. cbn [negb orb]. destruct vs as [|v0 t]; [congruence|].
+    destruct (s_closed s); [reflexivity|]. unfold send_some. rewrite Hsp. reflexivity.
+  - intros vs Hne Hs. cbn [step]. rewrite Ha, Hs. cbn [negb orb]. destruct vs as [|v0 t]; [congruence|].
+    destruct (s_closed s); [reflexivity|]. unfold send_some. rewrite Hsp. reflexivity.
+  - cbn [step]. rewrite Ha. cbn [negb snd]. unfold obs_tx. rewrite Hcur. cbn [minl]. rewrite N.eqb_refl, Hcap. reflexivity.
+Qed.
+
+(* ---- a closed handle rejects every operation on it; close is idempotent *)
+Theorem spmc_closed_rx_rejects s r x :
+  get (rxs s) r = Some x -> r_live x = true -> r_closed x = true ->
+  step s (TryRecv r) = (s, ODisc r) /\
+  (r_async x = false -> step s (Recv r) = (s, ODisc r) /\ step s (RecvT r) = (s, ODisc r)) /\
+  (forall n, n <> 0 -> step s (TryRecvB r n) = (s, ODisc r)) /\
+  (forall n, n <> 0 -> r_async x = false -> step s (RecvB r n) = (s, ODisc r)) /\
+  step s (RClose r) = (s, OCloseErr) /\
+  (forall f y w, get (futs s) f = Some y -> f_live y = true -> fut_rx (f_kind y) = Some r ->
+                 snd (step s (Poll f w)) = OReady (ODisc r)) /\
+  (r_async x = true -> rx_busy s r = false -> forall w, step s (PollNext r w) = (s, OReady ONone)).
+Proof.
+  intros Hg Hl Hc. cbn [step]. unfold with_rx. rewrite Hg, Hl, Hc.
+  split; [reflexivity|]. split; [intros ->; split; reflexivity|].
+  split; [intros n Hn; destruct (N.eqb_spec n 0); [contradiction|reflexivity]|].
+  split; [intros n Hn ->; destruct (N.eqb_spec n 0); [contradiction|reflexivity]|].
+  split; [reflexivity|]. split.
+  - intros f y w Hf Hlv Hk. rewrite Hf, Hlv. unfold poll_fut.
+    destruct (f_kind y) as [r0|r0 n0| | |]; cbn [fut_rx] in Hk; inversion Hk; subst r0; rewrite Hg, Hc; reflexivity.
+  - intros -> Hb w. cbn [negb]. rewrite Hb. reflexivity.
+Qed.
+
+Theorem spmc_closed_tx_rejects s :
+  s_alive s = true -> s_closed s = true ->
+  (forall v, step s (TrySend v) = (add_drops s [v], OClosedV v)) /\
+  (forall v, s_async s = false -> step s (Send v) = (add_drops s [v], OClosed)) /\
+  (forall vs, vs <> [] -> step s (TrySendB vs) = (add_drops s vs, OBatch BClosed 0 vs)) /\
+  (forall vs, vs <> [] -> step s (TrySendM vs) = (add_drops s vs, OMut false 0 vs)) /\
+  (tx_busy s = false -> step s SClose = (s, OCloseErr)) /\
+  (forall f y w v, get (futs s) f = Some y -> f_live y = true -> f_kind y = FSend v ->
+                   snd (step s (Poll f w)) = OReady OClosed).
+Proof.
+  intros Ha Hc. cbn [step]. rewrite Ha, Hc. cbn [negb].
+  split; [reflexivity|]. split; [intros v ->; reflexivity|].
+  split; [intros [|v0 t] Hne; [congruence|reflexivity]|].
+  split; [intros [|v0 t] Hne; [congruence|reflexivity]|].
+  split; [intros ->; reflexivity|].
+  intros f y w v Hf Hl Hk. rewrite Hf, Hl. unfold poll_fut. rewrite Hk, Ha, Hc. reflexivity.
+Qed.
+
+Theorem spmc_close_sets_flag s r s' :
+  step s (RClose r) = (s', OOk) ->
+  exists x x', get (rxs s) r = Some x /\ r_closed x = false /\ get (rxs s') r = Some x' /\
+               r_closed x' = true /\ r_reg x' = false.
+Proof.
+  cbn [step]. intros H. apply with_rx_inv in H. destruct H as [[_ H]|(x & Hg & Hl & H)]; [discriminate|].
+  destruct (r_closed x) eqn:Ec; [discriminate|]. pinv H.
+  exists x, (rx_unreg x). split; [exact Hg|]. split; [exact Ec|].
+  split; [|split; reflexivity].
+  change (c_get (proj (wake_producer (set_rx s r (rx_unreg x)))) r = Some (rx_unreg x)).
+  rewrite proj_wake_producer. unfold c_get. cbn [proj set_rx set_rxs rxs c_rxs]. apply get_set_eq.
+Qed.
+
+(* ---- closing or dropping one receiver changes no other receiver's outcomes, and does not disconnect
+   the sender while another receiver is registered *)
+Theorem spmc_close_isolated s r x o r' :
+  get (rxs s) r = Some x -> r_live x = true -> r_closed x = false -> rx_busy s r = false ->
+  o = RClose r \/ o = RDrop r -> r' <> r ->
+  let s1 := fst (step s o) in
+  get (rxs s1) r' = get (rxs s) r' /\
+  snd (step s1 (TryRecv r')) = snd (step s (TryRecv r')) /\
+  (forall n, snd (step s1 (TryRecvB r' n)) = snd (step s (TryRecvB r' n))) /\
+  snd (step s1 (RObs r')) = snd (step s (RObs r')) /\
+  (forall x', get (rxs s) r' = Some x' -> r_reg x' = true -> minl (cursors s1) <> None).
+Proof.
+  intros Hg Hl Hc Hb Ho Hne s1.
+  destruct (close_or_drop_spec s r x o Hg Hl Hc Hb Ho) as (_ & (x1 & Hx1 & Hp) & _). fold s1 in Hp.
+  assert (Hget : get (rxs s1) r' = get (rxs s) r').
+  { change (c_get (proj s1) r' = get (rxs s) r'). rewrite Hp. unfold c_get. cbn [with_rxs c_rxs].
+    apply get_set_neq. exact Hne. }
+  assert (Hlog : log s1 = log s) by (change (c_log (proj s1) = log s); rewrite Hp; reflexivity).
+  assert (Hcap : cap s1 = cap s) by (change (c_cap (proj s1) = cap s); rewrite Hp; reflexivity).
+  assert (Hpd : pdrop s1 = pdrop s) by (change (c_pdrop (proj s1) = pdrop s); rewrite Hp; reflexivity).
+  assert (Hhd : head s1 = head s) by (unfold head; rewrite Hlog; reflexivity).
+  split; [exact Hget|]. split; [|split; [|split]].
+  - cbn [step]. unfold with_rx. rewrite Hget. destruct (get (rxs s) r') as [y|]; [|reflexivity].
+    destruct (r_live y); [|reflexivity]. destruct (r_closed y); [reflexivity|].
+    unfold try_recv_core, in_window. rewrite Hhd, Hcap, Hpd, Hlog.
+    destruct (N.ltb (r_cur y) (head s) && N.leb (head s) (r_cur y + cap s)); [reflexivity|].
+    destruct (pdrop s && N.leb (head s) (r_cur y)); reflexivity.
+  - intros n. cbn [step]. unfold with_rx. rewrite Hget. destruct (get (rxs s) r') as [y|]; [|reflexivity].
+    destruct (r_live y); [|reflexivity]. destruct (N.eqb n 0); [reflexivity|]. destruct (r_closed y); [reflexivity|].
+    unfold try_recv_batch_core. rewrite Hhd, Hpd.
+    destruct (N.leb (head s) (r_cur y)); [destruct (pdrop s); reflexivity|]. cbn [snd out_of_bres].
+    f_equal. apply map_ext. intros i. unfold slot_val, slot_index. rewrite Hhd, Hcap, Hlog. reflexivity.
+  - cbn [step]. unfold with_rx. rewrite Hget. destruct (get (rxs s) r') as [y|]; [|reflexivity].
+    destruct (r_live y); [|reflexivity]. cbn [snd]. unfold obs_rx. rewrite Hhd, Hcap, Hpd. reflexivity.
+  - intros x' Hg' Hr' Hn. apply minl_none in Hn.
+    assert (Hin : In (r_cur x') (c_cursors (proj s1))).
+    { apply (cursor_in (proj s1) r' x'); [|exact Hr']. unfold c_get. change (c_rxs (proj s1)) with (rxs s1). rewrite Hget. exact Hg'. }
+    change (c_cursors (proj s1)) with (cursors s1) in Hin. rewrite Hn in Hin. contradiction.
+Qed.
+
+(* ---- history level: Disconnected is final, close is final *)
+Definition is_disc (r : N) (o : out) : bool :=
+  match o with
+  | ODisc r' => N.eqb r' r
+  | OReady (ODisc r') => N.eqb r' r
+  | _ => false
+  end.
+
+Definition frozen (s : st) (r : N) : Prop :=
+  exists x, get (rxs s) r = Some x /\ (r_closed x = true \/ (pdrop s = true /\ head s <= r_cur x)).
+
+Ltac bf H :=
+  repeat match type of H with
+         | context [match ?e with _ => _ end] => let E := fresh "E" in destruct e eqn:E
+         | context [if ?e then _ else _] => let E := fresh "E" in destruct e eqn:E
+         end.
+
+Lemma rres_disc r x s s1 : try_recv_core r x s = (s1, RDisc) -> pdrop s = true /\ head s <= r_cur x.
+Proof. intros H. apply try_recv_core_spec in H. tauto. Qed.
+Lemma bres_disc r x n s s1 : try_recv_batch_core r x n s = (s1, BDisc) -> pdrop s = true /\ head s <= r_cur x.
+Proof. intros H. apply try_recv_batch_core_spec in H. tauto. Qed.
+
+Ltac disc_fin :=
+  match goal with
+  | Hd : is_disc _ _ = true |- _ =>
+      cbn [is_disc] in Hd; try discriminate Hd; apply N.eqb_eq in Hd; subst
+  end;
+  match goal with
+  | Hg : get (rxs ?s) ?r = Some ?x |- frozen ?s ?r =>
+      exists x; split; [exact Hg|];
+      first [ left; assumption
+            | right; match goal with
+                     | E : try_recv_core _ _ _ = (_, RDisc) |- _ => exact (rres_disc _ _ _ _ E)
+                     | E : try_recv_batch_core _ _ _ _ = (_, BDisc) |- _ => exact (bres_disc _ _ _ _ _ E)
+                     end ]
+  end.
+
+Lemma step_disc s o s' x r : step s o = (s', x) -> is_disc r x = true -> frozen s r.
+Proof.
+  intros H Hd. destruct o; cbn [step] in H;
+    try (apply with_rx_inv in H; destruct H as [[-> ->]|(y & Hg & Hl & H)]; [discriminate Hd|]).
+  all: try (unfold new_fut, out_of_rres, out_of_bres in H).
+  all: try (bf H; pinv H; try discriminate Hd; disc_fin; fail).
+  (* Poll *)
+  destruct (get (futs s) f) as [y|]; [|pinv H; discriminate Hd].
+  destruct (f_live y); [|pinv H; discriminate Hd].
+  unfold poll_fut in H. destruct (f_kind y).
+  all: bf H; pinv H; try discriminate Hd; disc_fin.
+Qed.
+
+(* a step is "calm" if it does not clone / convert a closed handle, or the model is the patched one *)
+Definition calm (s : st) (o : op) : Prop := fixedm s = true \/ derives_from_closed s o = false.
+
+Lemma step_sender_calm s o s' x outs :
+  InvC (proj s) outs -> step s o = (s', x) -> calm s o -> s_taint s = false ->
+  s_taint s' = false /\ fixedm s' = fixedm s /\
+  (pdrop s = true -> pdrop s' = true /\ log s' = log s).
+Proof.
+  intros I Hs Hc Ht. pose proof (step_shape _ _ _ _ Hs) as Hsh.
+  change (c_taint (proj s) = false) in Ht.
+  change (c_taint (proj s') = false /\ c_fixed (proj s') = c_fixed (proj s) /\
+          (c_pdrop (proj s) = true -> c_pdrop (proj s') = true /\ c_log (proj s') = c_log (proj s))).
+  destruct Hsh as [Hq|vs0 sp Hq Hsp Hle Ha Hcl|r0 x0 k Hg Hcl Hk Hv Ho|r0 x0 x' Hq Hg Hl0 Hu|r0 x0 cid xc Hq Hg Hl0 Hn Hk|al cl t pd Hq Hk];
+    cbn [with_log with_rxs with_sender c_taint c_fixed c_pdrop c_log]; auto.
+  - split; [exact Ht|]. split; [reflexivity|]. intros Hp.
+    destruct (i_s2 _ _ I Hp) as [?|[?|?]]; congruence.
+  - destruct Hk as (Ha & [(_ & _ & _ & -> & ->)|[(_ & _ & -> & Hpd)|(Hf & _ & _ & -> & -> & Hkd)]]).
+    + auto.
+    + split; [exact Ht|]. split; [reflexivity|]. intros Hp. split; [|reflexivity].
+      destruct Hpd as [->|[_ ->]]; [reflexivity|exact Hp].
+    + apply kind_sconv in Hkd. subst o. destruct Hc as [Hc|Hc].
+      * change (c_fixed (proj s) = true) in Hc. congruence.
+      * cbn [derives_from_closed] in Hc. change (c_closed (proj s) = false) in Hc. rewrite Ht, Hc. auto.
+Qed.
+
+Lemma step_rx_calm s o s' x r y :
+  step s o = (s', x) -> calm s o -> get (rxs s) r = Some y ->
+  (r_closed y = true \/ (pdrop s = true /\ head s <= r_cur y)) ->
+  (exists y', get (rxs s') r = Some y' /\
+              (r_closed y' = true \/ (r_closed y = false /\ r_cur y' = r_cur y))) /\ vals_of r x = [].
+Proof.
+  intros Hs Hc Hgy Hfr. pose proof (step_shape _ _ _ _ Hs) as Hsh.
+  change (get (rxs s') r) with (c_get (proj s') r).
+  change (c_get (proj s) r = Some y) in Hgy.
+    destruct Hsh as [Hq|vs0 sp Hq Hsp Hle Ha Hcl|r0 x0 k Hg Hcl Hk Hv Ho|r0 x0 x' Hq Hg Hl0 Hu|r0 x0 cid xc Hq Hg Hl0 Hn Hk|al cl t pd Hq Hk].
+    - split; [|apply Hq]. exists y. split; [exact Hgy|]. destruct (r_closed y); auto.
+    - split; [|apply Hq]. exists y. split; [exact Hgy|]. destruct (r_closed y); auto.
+    - destruct (N.eq_dec r r0) as [->|Hne].
+      + rewrite Hgy in Hg. inversion Hg; subst x0. clear Hg.
+        destruct Hfr as [Hfr|[Hp Hh]]; [congruence|].
+        change (c_head (proj s)) with (head s) in Hk.
+        assert (k = 0) by lia. subst k.
+        split.
+        * exists (adv y 0). split; [unfold c_get; cbn [with_rxs c_rxs]; apply get_set_eq|].
+          right. split; [exact Hcl|]. cbn [adv r_cur]. lia.
+        * rewrite Hv. reflexivity.
+      + split; [|apply Ho; exact Hne]. exists y. split.
+        * unfold c_get. cbn [with_rxs c_rxs]. rewrite get_set_neq by exact Hne. exact Hgy.
+        * destruct (r_closed y); auto.
+    - split; [|apply Hq]. destruct (N.eq_dec r r0) as [->|Hne].
+      + rewrite Hgy in Hg. inversion Hg; subst x0. clear Hg.
+        exists x'. split; [unfold c_get; cbn [with_rxs c_rxs]; apply get_set_eq|].
+        destruct Hu as (Hcur & _ & [(_ & -> & _)|[(_ & -> & _)|(Hf & Hreg & Hcl' & Hlv & _ & Hkd)]]).
+        * auto.
+        * destruct (r_closed y); auto.
+        * apply kind_rconv in Hkd. subst o. destruct Hc as [Hc|Hc].
+          -- change (c_fixed (proj s) = true) in Hc. congruence.
+          -- cbn [derives_from_closed] in Hc. unfold c_get in Hgy. cbn [proj c_rxs] in Hgy. rewrite Hgy in Hc.
+             apply orb_false_iff in Hc. destruct Hc as [Hc _]. right. auto.
+      + exists y. split.
+        * unfold c_get. cbn [with_rxs c_rxs]. rewrite get_set_neq by exact Hne. exact Hgy.
+        * destruct (r_closed y); auto.
+    - split; [|apply Hq]. exists y. split.
+      + unfold c_get. cbn [with_rxs c_rxs]. rewrite get_set_neq; [exact Hgy|]. intros ->. congruence.
+      + destruct (r_closed y); auto.
+    - split; [|apply Hq]. exists y. split; [exact Hgy|]. destruct (r_closed y); auto.
+Qed.
+
+Lemma step_frozen s o s' x outs r :
+  InvC (proj s) outs -> step s o = (s', x) -> calm s o -> s_taint s = false ->
+  frozen s r -> frozen s' r /\ vals_of r x = [].
+Proof.
+  intros I Hs Hc Ht (y & Hgy & Hfr).
+  destruct (step_sender_calm s o s' x outs I Hs Hc Ht) as (_ & _ & Hpd).
+  destruct (step_rx_calm s o s' x r y Hs Hc Hgy Hfr) as [(y' & Hg' & Hy') Hv]. split; [|exact Hv].
+  exists y'. split; [exact Hg'|]. destruct Hy' as [Hy'|[Hcy Hcur]]; [left; exact Hy'|].
+  destruct Hfr as [Hfr|[Hp Hh]]; [congruence|]. right.
+  destruct (Hpd Hp) as [Hp' Hl']. split; [exact Hp'|]. unfold head. rewrite Hl', Hcur. exact Hh.
+Qed.
+
+(* chronological outputs of a history started in s *)
+Fixpoint outs_from (s : st) (ops : list op) : list out :=
+  match ops with
+  | [] => []
+  | o :: t => snd (step s o) :: outs_from (fst (step s o)) t
+  end.
+
+Fixpoint end_of (s : st) (ops : list op) : st :=
+  match ops with [] => s | o :: t => end_of (fst (step s o)) t end.
+
+Lemma runacc_outs ops : forall s acc,
+  runacc (s, acc) ops = (end_of s ops, rev (outs_from s ops) ++ acc).
+Proof.
+  induction ops as [|o t IH]; intros s acc; [reflexivity|].
+  cbn [runacc fold_left]. change (fold_left stepacc t) with (fun p => runacc p t). cbn beta.
+  unfold stepacc. cbn [fst snd]. destruct (step s o) as [s1 x] eqn:Es. rewrite IH.
+  cbn [end_of outs_from rev]. rewrite Es. cbn [fst snd]. rewrite <- app_assoc. reflexivity.
+Qed.
+
+Lemma run_outs fx c a ops : run fx c a ops = (end_of (init fx c a) ops, outs_from (init fx c a) ops).
+Proof. unfold run. rewrite runacc_outs. rewrite app_nil_r, rev_involutive. reflexivity. Qed.
+
+Fixpoint calm_from (s : st) (ops : list op) : Prop :=
+  match ops with
+  | [] => True
+  | o :: t => calm s o /\ calm_from (fst (step s o)) t
+  end.
+
+Lemma clean_calm ops : forall s, clean_from s ops = true -> calm_from s ops.
+Proof.
+  induction ops as [|o t IH]; intros s H; [exact I|].
+  cbn [clean_from] in H. apply andb_true_iff in H. destruct H as [H1 H2].
+  split; [right; apply negb_true_iff; exact H1 | apply IH; exact H2].
+Qed.
+
+Lemma fixed_calm ops : forall s outs, InvC (proj s) outs -> fixedm s = true -> calm_from s ops.
+Proof.
+  induction ops as [|o t IH]; intros s outs I H; [exact Logic.I|].
+  split; [left; exact H|]. destruct (step s o) as [s1 x] eqn:Es. cbn [fst].
+  apply (IH s1 (outs ++ [x])).
+  - eapply inv_step; [exact I|]. apply step_shape with (op := o). exact Es.
+  - pose proof (step_shape _ _ _ _ Es) as Hsh. change (c_fixed (proj s1) = true).
+    change (c_fixed (proj s) = true) in H. destruct Hsh; exact H.
+Qed.
+
+(* once Disconnected was returned for r, no later output carries a value for r *)
+Fixpoint nvad (r : N) (seen : bool) (outs : list out) : Prop :=
+  match outs with
+  | [] => True
+  | o :: t => (seen = true -> vals_of r o = []) /\ nvad r (seen || is_disc r o) t
+  end.
+
+Lemma nvad_from r ops : forall s seen outs0,
+  InvC (proj s) outs0 -> s_taint s = false -> calm_from s ops ->
+  (seen = true -> frozen s r) -> nvad r seen (outs_from s ops).
+Proof.
+  induction ops as [|o t IH]; intros s seen outs0 I Ht Hc Hf; [exact Logic.I|].
+  cbn [outs_from nvad]. destruct Hc as [Hc1 Hc2]. destruct (step s o) as [s1 x] eqn:Es. cbn [fst snd] in *.
+  split.
+  - intros Hs. destruct (step_frozen s o s1 x outs0 r I Es Hc1 Ht (Hf Hs)) as [_ Hv]. exact Hv.
+  - apply (IH s1 _ (outs0 ++ [x])).
+    + eapply inv_step; [exact I|]. apply step_shape with (op := o). exact Es.
+    + destruct (step_sender_calm s o s1 x outs0 I Es Hc1 Ht) as (H & _). exact H.
+    + exact Hc2.
+    + intros Hs. apply orb_true_iff in Hs.
+      assert (Hfz : frozen s r).
+      { destruct Hs as [Hs|Hs]; [exact (Hf Hs)|]. eapply step_disc; eauto. }
+      destruct (step_frozen s o s1 x outs0 r I Es Hc1 Ht Hfz) as [H _]. exact H.
+Qed.
+
+Definition spmc_disc_final_full (fx : bool) : Prop :=
+  forall c a ops r, 0 < c -> nvad r false (snd (run fx c a ops)).
+
+Theorem spmc_disc_final_clean fx c a ops r :
+  0 < c -> clean_from (init fx c a) ops = true -> nvad r false (snd (run fx c a ops)).
+Proof.
+  intros Hc Hcl. rewrite run_outs. cbn [snd].
+  apply (nvad_from r ops (init fx c a) false []); [apply inv_init; exact Hc|reflexivity|apply clean_calm; exact Hcl|discriminate].
+Qed.
+
+Theorem spmc_disc_final_fixed : spmc_disc_final_full true.
+Proof.
+  intros c a ops r Hc. rewrite run_outs. cbn [snd].
+  apply (nvad_from r ops (init true c a) false []); [apply inv_init; exact Hc|reflexivity| |discriminate].
+  apply (fixed_calm ops _ []); [apply inv_init; exact Hc|reflexivity].
+Qed.
+
+(* known finding (sender): close(); to_async()/to_sync() re-opens the sender, so a receiver that has
+   observed Disconnected obtains a value afterwards *)
+Definition witness_reopen_tx : list op := [SClose; TryRecv 0; SConv; TrySend 1; TryRecv 0].
+
+Lemma spmc_disc_final_refuted_reopen_tx : ~ spmc_disc_final_full false.
+Proof.
+  intros H. specialize (H 2 false witness_reopen_tx 0 ltac:(lia)). vm_compute in H.
+  destruct H as (_ & _ & _ & _ & H & _). specialize (H eq_refl). discriminate H.
+Qed.
+
+(* ---- close is final for a receiver handle: after close() returned Ok, no later operation yields a
+   value on it — on the patched model and on histories that do not convert/clone closed handles *)
+Lemma closed_forever r ops : forall s y,
+  calm_from s ops -> get (rxs s) r = Some y -> r_closed y = true ->
+  (exists y', get (rxs (end_of s ops)) r = Some y' /\ r_closed y' = true) /\ recvd r (outs_from s ops) = [].
+Proof.
+  induction ops as [|o t IH]; intros s y Hc Hg Hcl; [split; [eauto|reflexivity]|].
+  destruct Hc as [Hc1 Hc2]. cbn [end_of outs_from]. destruct (step s o) as [s1 x] eqn:Es. cbn [fst snd] in *.
+  destruct (step_rx_calm s o s1 x r y Es Hc1 Hg (or_introl Hcl)) as [(y' & Hg' & Hy') Hv].
+  assert (Hcl' : r_closed y' = true) by (destruct Hy' as [?|[? _]]; congruence).
+  destruct (IH s1 y' Hc2 Hg' Hcl') as [He Hr]. split; [exact He|].
+  unfold recvd. cbn [flat_map]. rewrite Hv. exact Hr.
+Qed.
+
+Definition spmc_close_final_full (fx : bool) : Prop :=
+  forall c a ops1 r ops2, 0 < c ->
+    let s1 := end_of (init fx c a) ops1 in
+    snd (step s1 (RClose r)) = OOk ->
+    recvd r (outs_from (fst (step s1 (RClose r))) ops2) = [].
+
+Lemma inv_end_of fx c a ops : 0 < c -> InvC (proj (end_of (init fx c a) ops)) (outs_from (init fx c a) ops).
+Proof. intros Hc. apply (inv_run fx c a ops). exact Hc. apply run_outs. Qed.
+
+Lemma fixedm_step s o : fixedm (fst (step s o)) = fixedm s.
+Proof.
+  destruct (step s o) as [s1 x] eqn:E. cbn [fst]. pose proof (step_shape _ _ _ _ E) as Hsh.
+  change (c_fixed (proj s1) = c_fixed (proj s)). destruct Hsh; reflexivity.
+Qed.
+
+Lemma fixedm_end_of ops : forall s, fixedm (end_of s ops) = fixedm s.
+Proof.
+  induction ops as [|o t IH]; intros s; [reflexivity|]. cbn [end_of]. rewrite IH. apply fixedm_step.
+Qed.
+
+Theorem spmc_close_final_fixed : spmc_close_final_full true.
+Proof.
+  intros c a ops1 r ops2 Hc s1 Hok.
+  pose proof (fixedm_step s1 (RClose r)) as Hf. unfold s1 in Hf at 2. rewrite fixedm_end_of in Hf. cbn [init fixedm] in Hf.
+  pose proof (inv_end_of true c a ops1 Hc) as I1. fold s1 in I1.
+  destruct (step s1 (RClose r)) as [s2 x] eqn:Es. cbn [snd fst] in *. subst x.
+  destruct (spmc_close_sets_flag s1 r s2 Es) as (y & y' & _ & _ & Hg' & Hcl' & _).
+  assert (I2 : InvC (proj s2) (outs_from (init true c a) ops1 ++ [OOk])).
+  { eapply inv_step; [exact I1|]. apply step_shape with (op := RClose r). exact Es. }
+  destruct (closed_forever r ops2 s2 y' (fixed_calm ops2 s2 _ I2 Hf) Hg' Hcl') as [_ H]. exact H.
+Qed.
+
+Theorem spmc_close_final_clean fx c a ops1 r ops2 :
+  0 < c -> let s1 := end_of (init fx c a) ops1 in
+  snd (step s1 (RClose r)) = OOk -> clean_from (fst (step s1 (RClose r))) ops2 = true ->
+  recvd r (outs_from (fst (step s1 (RClose r))) ops2) = [].
+Proof.
+  intros Hc s1 Hok Hcl. destruct (step s1 (RClose r)) as [s2 x] eqn:Es. cbn [snd fst] in *. subst x.
+  destruct (spmc_close_sets_flag s1 r s2 Es) as (y & y' & _ & _ & Hg' & Hcl' & _).
+  destruct (closed_forever r ops2 s2 y' (clean_calm ops2 s2 Hcl) Hg' Hcl') as [_ H]. exact H.
+Qed.
+
+(* known finding (receiver): close(); to_async()/to_sync() re-opens the handle *)
+Lemma spmc_close_final_refuted_reopen_rx : ~ spmc_close_final_full false.
+Proof.
+  intros H. specialize (H 2 false [RClone 0 1] 0 [RConv 0; TrySend 1; TryRecv 0] ltac:(lia)).
+  cbv zeta in H. specialize (H ltac:(vm_compute; reflexivity)). vm_compute in H. discriminate H.
+Qed.
